@@ -991,6 +991,8 @@ impl<CS: CipherSuite> ChanListData<CS> {
             crate::verif::probe("list.hint_stale");
         }
         if let Some((idx, chan)) = self.try_iter()?.enumerate().try_find(|(_, chan)| {
+            #[cfg(aranya_verif)]
+            crate::verif::point("shared.find.scan");
             let ok = chan.id()? == ch && chan.matches(op)?;
             Ok::<bool, Corrupted>(ok)
         })? {
@@ -1042,6 +1044,8 @@ impl<CS: CipherSuite> ChanListData<CS> {
             crate::verif::probe("list.hint_stale");
         }
         if let Some((idx, chan)) = self.try_iter_mut()?.enumerate().try_find(|(_, chan)| {
+            #[cfg(aranya_verif)]
+            crate::verif::point("shared.find_mut.scan");
             let ok = chan.id()? == ch && chan.matches(op)?;
             Ok::<bool, Corrupted>(ok)
         })? {
